@@ -14,45 +14,67 @@ def _source_literal(node):
     return Fraction(repr(node.value))
 
 
+def _is_third(node):
+    """the exponent `1/3.`"""
+    try:
+        return (isinstance(node, ast.BinOp) and isinstance(node.op, ast.Div)
+                and _source_literal(node.left) == 1 and _source_literal(node.right) == 3)
+    except TranslatorError:
+        return False
+
+
+def _numeric(node):
+    return isinstance(node, ast.Constant) and isinstance(node.value, (int, float)) \
+        and not isinstance(node.value, bool)
+
+
+def density_factors(tree):
+    """every `(<mass> * <literal> / <density>) ** (1/3.)` of the module, whatever the helper it lives in and
+    whatever the operands are called (the literal may be on either side of the product)"""
+    found = []
+    for node in ast.walk(tree):
+        if not (isinstance(node, ast.BinOp) and isinstance(node.op, ast.Pow) and _is_third(node.right)):
+            continue
+        base = node.left
+        if not (isinstance(base, ast.BinOp) and isinstance(base.op, ast.Div)
+                and isinstance(base.left, ast.BinOp) and isinstance(base.left.op, ast.Mult)):
+            raise TranslatorError("build_system.py: `(...)**(1/3.)` whose base is not `<mass>*<factor>/<density>`: %s"
+                                  % ast.dump(base)[:160])
+        lits = [x for x in (base.left.left, base.left.right) if _numeric(x)]
+        if len(lits) != 1 or _numeric(base.right):
+            raise TranslatorError("build_system.py: `<mass>*<factor>/<density>` needs exactly one numeric literal")
+        found.append(_source_literal(lits[0]))
+    return found
+
+
+def round_digits(tree):
+    """every `round(<call>, <int literal>)` of the module"""
+    found = []
+    for node in ast.walk(tree):
+        if isinstance(node, ast.Call) and isinstance(node.func, ast.Name) and node.func.id == "round" \
+                and len(node.args) == 2 and isinstance(node.args[0], ast.Call):
+            digits = _source_literal(node.args[1])
+            if digits.denominator != 1 or digits < 0:
+                raise TranslatorError("round(<call>, n): n is not a natural number literal")
+            found.append(int(digits))
+    return found
+
+
 def extract():
     tab = {}
     tree = src("build_system.py")
-    func = find_func(tree, "_compute_box_size")
-    # box = (total_mass*<factor>/density)**(1/3.)
-    factor = None
-    for node in ast.walk(func):
-        if isinstance(node, ast.Assign) and any(isinstance(t, ast.Name) and t.id == "box" for t in node.targets):
-            val = node.value
-            if not (isinstance(val, ast.BinOp) and isinstance(val.op, ast.Pow)):
-                raise TranslatorError("_compute_box_size: `box = (...)**(1/3.)` expected")
-            expo = val.right
-            if not (isinstance(expo, ast.BinOp) and isinstance(expo.op, ast.Div)
-                    and _source_literal(expo.left) == 1 and _source_literal(expo.right) == 3):
-                raise TranslatorError("_compute_box_size: exponent is not 1/3.")
-            base = val.left
-            # (total_mass * factor) / density
-            if not (isinstance(base, ast.BinOp) and isinstance(base.op, ast.Div)
-                    and isinstance(base.right, ast.Name) and base.right.id == "density"
-                    and isinstance(base.left, ast.BinOp) and isinstance(base.left.op, ast.Mult)
-                    and isinstance(base.left.left, ast.Name) and base.left.left.id == "total_mass"):
-                raise TranslatorError("_compute_box_size: `total_mass*<factor>/density` expected")
-            factor = _source_literal(base.left.right)
-    if factor is None:
-        raise TranslatorError("anchor not found: assignment box in _compute_box_size")
-    tab["amuFactor"] = str(factor)
-    # box_dim = round(_compute_box_size(topology, self.density), 5)
-    init = find_func(tree, "__init__", cls="BuildSystem")
-    digits = None
-    for node in ast.walk(init):
-        if isinstance(node, ast.Call) and isinstance(node.func, ast.Name) and node.func.id == "round" \
-                and node.args and isinstance(node.args[0], ast.Call) \
-                and getattr(node.args[0].func, "id", None) == "_compute_box_size":
-            if len(node.args) != 2:
-                raise TranslatorError("round(_compute_box_size(...), n) expected")
-            digits = int(_source_literal(node.args[1]))
-    if digits is None:
-        raise TranslatorError("anchor not found: round(_compute_box_size(...), n) in BuildSystem.__init__")
-    tab["roundDigits"] = digits
+    # the anchors are looked for in the whole module (they may live in any helper); each must have exactly
+    # one distinct value
+    factors = sorted(set(density_factors(tree)))
+    if len(factors) != 1:
+        raise TranslatorError("anchor not found: exactly one `(<mass>*<factor>/<density>)**(1/3.)` expected in "
+                              "build_system.py, found factors %s" % [str(f) for f in factors])
+    tab["amuFactor"] = str(factors[0])
+    digits = sorted(set(round_digits(tree)))
+    if len(digits) != 1:
+        raise TranslatorError("anchor not found: exactly one `round(<call>, n)` expected in build_system.py, "
+                              "found n in %s" % digits)
+    tab["roundDigits"] = digits[0]
     gen = find_func(src("gen_coords.py"), "gen_coords")
     tab["gridSpacing"] = str(Fraction(repr(kw_default(gen, "grid_spacing"))))
     tab["maxiter"] = int(kw_default(gen, "maxiter"))
@@ -86,4 +108,29 @@ def validate_live(tab):
         problems.append("gen_coords grid_spacing default differs between ast and live module")
     if sig.parameters["maxiter"].default != tab["maxiter"] or sig.parameters["nrewind"].default != tab["nrewind"]:
         problems.append("gen_coords maxiter/nrewind default differs between ast and live module")
+    problems += _live_box(tab)
     return problems
+
+
+def _live_box(tab):
+    """the real density path (`BuildSystem.__init__` with no box) on one dyadic input: 8 atoms of mass 1.5
+    at density 0.75 must give the edge `round((12 * factor / 0.75) ** (1/3.), digits)` with the extracted
+    constants, three equal edges"""
+    import types
+    import networkx as nx
+    import numpy as np
+    from polyply.src.build_system import BuildSystem
+    graph = nx.Graph()
+    for i in range(8):
+        graph.add_node(i, mass=1.5, atomname="A", atype="T")
+    topology = types.SimpleNamespace(molecules=[types.SimpleNamespace(molecule=graph)], atom_types={}, box=None)
+    try:
+        builder = BuildSystem(topology, density=0.75, start_dict={}, grid=np.zeros((1, 3)))
+        box = [float(x) for x in builder.box]
+    except Exception as err:  # pylint: disable=broad-except
+        return ["BuildSystem(density=0.75) on an 8-atom stub raised %s: %s" % (type(err).__name__, err)]
+    want = round((12.0 * float(Fraction(tab["amuFactor"])) / 0.75) ** (1 / 3.), tab["roundDigits"])
+    if box != [want, want, want]:
+        return ["density box of the live BuildSystem is %s, the extracted constants (factor %s, %d digits) give %r"
+                % (box, tab["amuFactor"], tab["roundDigits"], want)]
+    return []
